@@ -190,7 +190,7 @@ def behaviours_to_ndjson(behs, path, profiles, seed, idprefix="b", observers=Non
         for i, states in enumerate(behs):
             prof = profiles[i % len(profiles)]
             steps = []
-            evk, stk = ("dev", "dst") if family == "data" else ("ev", "st")
+            evk, stk = {"data": ("dev", "dst"), "intertx": ("xev", "xst")}.get(family, ("ev", "st"))
             for s in states[1:]:
                 m = s[evk]["m"]
                 if observers == "replica" and m["type"] == "BeginBlock":
@@ -212,6 +212,8 @@ def behaviours_to_ndjson(behs, path, profiles, seed, idprefix="b", observers=Non
                 d0 = states[0]["dst"]
                 b["genesis"] = "default"
                 b["weak"] = None if d0.get("production") else {"minlen": d0["minlen"], "hashlen": d0["hashlen"], "table": d0["hash"]}
+            elif family == "intertx":
+                b["genesis"] = "default"
             else:
                 b["genesis"] = states[0]["st"]
             f.write(json.dumps(b) + "\n")
